@@ -294,7 +294,9 @@ class SVGImage:
 def get_image_from_uri(cache, url_fetcher, options, url, forced_mime_type=None,
                        context=None, orientation='from-image'):
     """Get an Image instance from an image URI."""
-    key = f'{url} {orientation}'
+    key = (
+        f'{url} {orientation} {options["optimize_images"]} '
+        f'{options["jpeg_quality"]} {options["dpi"]}')
     if key in cache:
         return cache[key]
 
